@@ -127,36 +127,50 @@ theorem grid_head (start step : Int) (n : Nat) : (grid start step n).head? = som
 theorem grid_getLast (start step : Int) (n : Nat) : (grid start step n).getLast? = some (start + (n : Int) * step) := by
   simp [grid, List.range_succ]
 
-/-- the marching loop of `KeplerNum._iter`: `m` steps, `m` the least number with `start + m·h ≥ stop` -/
-theorem march_exact (h stop : Int) (m : Nat) : ∀ (start : Int) (fuel : Nat),
-    (∀ k : Nat, k < m → start + (k : Int) * h < stop) → stop ≤ start + (m : Int) * h → m < fuel →
-    (march h stop fuel start).map (start :: ·) = some (grid start h m) := by
+/-- the marching loop of `KeplerNum._iter` (forward or backward, with or without padding to `order` points) ends within any
+number `m` of integration steps after which the loop condition is false; it has then tabulated `date + k·hs`, `k = 0 … m'`,
+for the first such `m' ≤ m` -/
+theorem march_some (backward interp : Bool) (order : Nat) (hs stop : Int) (m : Nat) : ∀ (len : Nat) (date : Int) (fuel : Nat),
+    (if backward then decide (date + (m : Int) * hs > stop) else decide (date + (m : Int) * hs < stop)) = false →
+    (interp = true → order ≤ len + m) → m < fuel →
+    ∃ m' : Nat, m' ≤ m ∧ (march backward interp order hs stop fuel len date).map (date :: ·) = some (grid date hs m') ∧
+      (if backward then decide (date + (m' : Int) * hs > stop) else decide (date + (m' : Int) * hs < stop)) = false ∧
+      (interp = true → order ≤ len + m') := by
   induction m with
   | zero =>
-    intro start fuel _ hhi hf
+    intro len date fuel hfar hord hf
     obtain ⟨f, rfl⟩ : ∃ f, fuel = f + 1 := ⟨fuel - 1, by omega⟩
-    simp only [Nat.cast_zero, zero_mul, add_zero] at hhi
-    have : ¬ start < stop := by omega
-    simp [march, this, grid_zero]
+    simp only [Nat.cast_zero, zero_mul, add_zero] at hfar
+    refine ⟨0, le_refl _, ?_, by simpa using hfar, hord⟩
+    have hlen : (interp && decide (len < order)) = false := by
+      cases interp with
+      | false => rfl
+      | true => have := hord rfl; simp; omega
+    simp [march, hfar, hlen, grid_zero]
   | succ m ih =>
-    intro start fuel hlo hhi hf
+    intro len date fuel hfar hord hf
     obtain ⟨f, rfl⟩ : ∃ f, fuel = f + 1 := ⟨fuel - 1, by omega⟩
-    have h0 := hlo 0 (by omega)
-    simp only [Nat.cast_zero, zero_mul, add_zero] at h0
-    have := ih (start + h) f
-      (fun k hk => by
-        have := hlo (k + 1) (by omega)
-        have e : start + ((k + 1 : Nat) : Int) * h = start + h + (k : Int) * h := by push_cast; ring
-        rwa [e] at this)
-      (by
-        have e : start + ((m + 1 : Nat) : Int) * h = start + h + (m : Int) * h := by push_cast; ring
-        rwa [e] at hhi)
-      (by omega)
-    rw [grid_succ]
-    simp only [march, h0, if_true]
-    cases hm : march h stop f (start + h) with
-    | none => simp [hm] at this
-    | some l => simp [hm] at this; simp [this]
+    by_cases hc : ((if backward then decide (date > stop) else decide (date < stop)) || (interp && decide (len < order))) = true
+    · have e : date + ((m + 1 : Nat) : Int) * hs = date + hs + (m : Int) * hs := by push_cast; ring
+      rw [e] at hfar
+      obtain ⟨m', hm', hmarch, hfar', hord'⟩ := ih (len + 1) (date + hs) f hfar (fun hi => by have := hord hi; omega) (by omega)
+      refine ⟨m' + 1, by omega, ?_, ?_, fun hi => by have := hord' hi; omega⟩
+      · rw [grid_succ]
+        simp only [march, hc, if_true]
+        cases hm : march backward interp order hs stop f (len + 1) (date + hs) with
+        | none => simp [hm] at hmarch
+        | some l => simp [hm] at hmarch; simp [hmarch]
+      · have e' : date + ((m' + 1 : Nat) : Int) * hs = date + hs + (m' : Int) * hs := by push_cast; ring
+        rw [e']; exact hfar'
+    · have hc' : ((if backward then decide (date > stop) else decide (date < stop)) || (interp && decide (len < order))) = false :=
+        Bool.eq_false_iff.mpr hc
+      rw [Bool.or_eq_false_iff] at hc'
+      refine ⟨0, Nat.zero_le _, ?_, by simpa using hc'.1, ?_⟩
+      · simp [march, hc'.1, hc'.2, grid_zero]
+      · intro hi
+        have := hc'.2
+        simp [hi] at this
+        omega
 
 theorem ownPts_all (lo hi : Int) (l : List Int) (h : ∀ d ∈ l, lo ≤ d ∧ d ≤ hi) : ownPts lo hi l = l := by
   induction l with
@@ -166,5 +180,187 @@ theorem ownPts_all (lo hi : Int) (l : List Int) (h : ∀ d ∈ l, lo ≤ d ∧ d
     have h1 : ¬ d < lo := by omega
     have h2 : ¬ d > hi := by omega
     simp [ownPts, h1, h2, ih (fun x hx => h x (by simp [hx]))]
+
+theorem ownPts_none (lo hi s h : Int) (m : Nat) (h1 : lo ≤ s) (h2 : hi < s) : ownPts lo hi (grid s h m) = [] := by
+  have h1' : ¬ s < lo := by omega
+  cases m with
+  | zero => simp [grid_zero, ownPts, h1', h2]
+  | succ m => simp [grid_succ, ownPts, h1', h2]
+
+/-- the points of an integration grid `start + k·h`, `k ≤ m`, that lie in `[lo, hi]` (`lo ≤ start`) are the first `n + 1`,
+`n = ⌊(hi − start)/h⌋ ≤ m` -/
+theorem ownPts_grid (lo hi h : Int) (hh : 0 < h) (m : Nat) : ∀ (start : Int) (n : Nat), lo ≤ start → n ≤ m →
+    start + (n : Int) * h ≤ hi → hi < start + ((n : Int) + 1) * h → ownPts lo hi (grid start h m) = grid start h n := by
+  induction m with
+  | zero =>
+    intro start n hlo hn h1 h2
+    obtain rfl : n = 0 := by omega
+    simp only [Nat.cast_zero, zero_mul, add_zero] at h1
+    have a1 : ¬ start < lo := by omega
+    have a2 : ¬ start > hi := by omega
+    simp [grid_zero, ownPts, a1, a2]
+  | succ m ih =>
+    intro start n hlo hn h1 h2
+    have h0 : (0 : Int) ≤ (n : Int) * h := Int.mul_nonneg (by exact_mod_cast Nat.zero_le n) (le_of_lt hh)
+    have a1 : ¬ start < lo := by omega
+    have a2 : ¬ start > hi := by omega
+    rw [grid_succ]
+    simp only [ownPts, a1, a2, if_false]
+    cases n with
+    | zero =>
+      simp only [Nat.cast_zero, zero_add, one_mul] at h2
+      rw [ownPts_none lo hi (start + h) h m (by omega) h2, grid_zero]
+    | succ n =>
+      rw [grid_succ]
+      congr 1
+      apply ih (start + h) n (by omega) (by omega)
+      · have e : start + ((n + 1 : Nat) : Int) * h = start + h + (n : Int) * h := by push_cast; ring
+        rwa [e] at h1
+      · have e : start + (((n + 1 : Nat) : Int) + 1) * h = start + h + ((n : Int) + 1) * h := by push_cast; ring
+        rwa [e] at h2
+
+theorem listMin_le (d : Int) (l : List Int) : ∀ x ∈ d :: l, listMin d l ≤ x := by
+  induction l generalizing d with
+  | nil => intro x hx; simp at hx; simp [listMin, hx]
+  | cons y r ih =>
+    intro x hx
+    have e : listMin d (y :: r) = listMin (min d y) r := rfl
+    rw [e]
+    have h0 := ih (min d y) (min d y) (by simp)
+    simp only [List.mem_cons] at hx
+    rcases hx with rfl | rfl | hx
+    · have := Int.min_le_left x y; omega
+    · have := Int.min_le_right d x; omega
+    · exact ih (min d y) x (by simp [hx])
+
+theorem le_listMax (d : Int) (l : List Int) : ∀ x ∈ d :: l, x ≤ listMax d l := by
+  induction l generalizing d with
+  | nil => intro x hx; simp at hx; simp [listMax, hx]
+  | cons y r ih =>
+    intro x hx
+    have e : listMax d (y :: r) = listMax (max d y) r := rfl
+    rw [e]
+    have h0 := ih (max d y) (max d y) (by simp)
+    simp only [List.mem_cons] at hx
+    rcases hx with rfl | rfl | hx
+    · have := Int.le_max_left x y; omega
+    · have := Int.le_max_right d x; omega
+    · exact ih (max d y) x (by simp [hx])
+
+theorem listMin_mem (d : Int) (l : List Int) : listMin d l ∈ d :: l := by
+  induction l generalizing d with
+  | nil => simp [listMin]
+  | cons y r ih =>
+    have e : listMin d (y :: r) = listMin (min d y) r := rfl
+    rw [e]
+    have := ih (min d y)
+    simp only [List.mem_cons] at this ⊢
+    rcases this with h | h
+    · rcases Int.min_def d y ▸ (by split <;> simp : (if d ≤ y then d else y) = d ∨ (if d ≤ y then d else y) = y) with h' | h'
+      · left; rw [h, h']
+      · right; left; rw [h, h']
+    · right; right; exact h
+
+theorem listMax_mem (d : Int) (l : List Int) : listMax d l ∈ d :: l := by
+  induction l generalizing d with
+  | nil => simp [listMax]
+  | cons y r ih =>
+    have e : listMax d (y :: r) = listMax (max d y) r := rfl
+    rw [e]
+    have := ih (max d y)
+    simp only [List.mem_cons] at this ⊢
+    rcases this with h | h
+    · rcases Int.max_def d y ▸ (by split <;> simp : (if d ≤ y then y else d) = d ∨ (if d ≤ y then y else d) = y) with h' | h'
+      · left; rw [h, h']
+      · right; left; rw [h, h']
+    · right; right; exact h
+
+/-! ### `Date.range` loop conditions, `Ephem.iter` special cases, `KeplerNum._iter` reduced to `Ephem.iter` -/
+
+theorem rangeCond_up {stop step : Int} (hs : 0 < step) : rangeCond stop step true = fun d => decide (d ≤ stop) := by
+  funext d; simp [rangeCond, hs]
+
+theorem rangeCond_down {stop step : Int} (hs : step < 0) : rangeCond stop step true = fun d => decide (d ≥ stop) := by
+  funext d
+  have : ¬ (0 < step) := by omega
+  simp [rangeCond, this]
+
+theorem interpOk_of {order : Nat} {pts : List Int} {first last d : Int} (hh : pts.head? = some first)
+    (hl : pts.getLast? = some last) (hord : order ≤ pts.length) (h1 : first ≤ d) (h2 : d ≤ last) : interpOk order pts d = true := by
+  simp [interpOk, hh, hl, hord, h1, h2]
+
+/-- `Ephem.iter(dates=ds, ...)`: only the dates matter -/
+theorem ephemIter_dates (fuel order : Nat) (pts : List Int) (ds : Dates) (start : Option Int) (stop : Option Stop)
+    (step : Option Int) (strict : Bool) :
+    ephemIter fuel order pts (some ds) start stop step strict = ds.run (interpOk order pts) fuel := rfl
+
+/-- `Ephem.iter(stop=stop, step=step)` from the first point: resampling -/
+theorem ephemIter_resample_up (fuel order : Nat) (pts : List Int) (first last stop step : Int) (n : Nat)
+    (hh : pts.head? = some first) (hl : pts.getLast? = some last) (hord : order ≤ pts.length) (hs : 0 < step)
+    (hsl : stop ≤ last) (h1 : first + (n : Int) * step ≤ stop) (h2 : stop < first + ((n : Int) + 1) * step) (hf : n + 1 < fuel) :
+    ephemIter fuel order pts none none (some (.at stop)) (some step) true = ⟨grid first step n, .done⟩ := by
+  have hng : ¬ stop > last := by omega
+  unfold ephemIter
+  simp only [hh, hl, hng, Stop.resolve, if_false, Option.getD_none]
+  apply loop_up _ first stop step n fuel hs h1 h2 _ hf
+  intro k hk
+  have := cast_mul_mono hk (le_of_lt hs)
+  have : (0 : Int) ≤ (k : Int) * step := Int.mul_nonneg (by exact_mod_cast Nat.zero_le k) (le_of_lt hs)
+  exact interpOk_of hh hl hord (by omega) (by linarith)
+
+/-- `Ephem.iter(stop=stop)` from the first point: the tabulated points up to stop -/
+theorem ephemIter_own_up (fuel order : Nat) (pts : List Int) (first last stop : Int)
+    (hh : pts.head? = some first) (hl : pts.getLast? = some last) (hsl : stop ≤ last) :
+    ephemIter fuel order pts none none (some (.at stop)) none true = ⟨ownPts first stop pts, .done⟩ := by
+  have hng : ¬ stop > last := by omega
+  unfold ephemIter
+  simp only [hh, hl, hng, Stop.resolve, if_false, Option.getD_none]
+
+/-- `KeplerNum._iter`, forward range (or explicit dates spanning `start … stop`): given fuel for any `m` integration steps that
+reach stop and fill the interpolation order, the integration grid `start + k·h`, `k ≤ m'`, reaches stop, holds at least `order`
+points whenever an output is interpolated, and is handed to `Ephem.iter` with `stop` as its last date -/
+theorem numCore_forward (fuel order : Nat) (h start stop : Int) (kstep : Option Int) (dates : Option Dates) (listening : Bool)
+    (m : Nat) (hfw : start ≤ stop) (hm : stop ≤ start + (m : Int) * h) (hmo : order ≤ m + 1) (hf : m < fuel) :
+    ∃ m' : Nat, stop ≤ start + (m' : Int) * h ∧ ((dates.isSome || kstep.isSome || listening) = true → order ≤ m' + 1) ∧
+      numCore fuel order h start stop kstep dates listening
+        = (true, ephemIter fuel order (grid start h m') dates none (if dates.isNone then some (.at stop) else none) kstep true) := by
+  have hb : decide (stop < start) = false := by simp; omega
+  obtain ⟨m', _, hmarch, hfar, hord⟩ := march_some false (dates.isSome || kstep.isSome || listening) order h stop m 1 start fuel
+    (by simp; omega) (fun _ => by omega) hf
+  simp only [Bool.false_eq_true, if_false, decide_eq_false_iff_not, not_lt] at hfar
+  refine ⟨m', hfar, fun hi => by have := hord hi; omega, ?_⟩
+  unfold numCore
+  simp only [hb, Bool.false_eq_true, if_false, Bool.false_and]
+  cases hmm : march false (dates.isSome || kstep.isSome || listening) order h stop fuel 1 start with
+  | none => rw [hmm] at hmarch; simp at hmarch
+  | some more =>
+    rw [hmm] at hmarch
+    simp only [Option.map_some, Option.some.injEq] at hmarch
+    simp [hmarch, hfw]
+
+/-- `KeplerNum._iter`, backward range with the (negative) step `s` it receives from `NumericalPropagator.iter`: the grid
+`start − k·h` is integrated down to stop and to `order` points, and `Ephem.iter` is given the dates `Date.range(start, stop, s)` -/
+theorem numCore_backward (fuel order : Nat) (h start stop s : Int) (listening : Bool) (m : Nat)
+    (hbw : stop < start) (hs : s < 0) (hm : start + (m : Int) * (-h) ≤ stop) (hmo : order ≤ m + 1) (hf : m < fuel) :
+    ∃ m' : Nat, start + (m' : Int) * (-h) ≤ stop ∧ order ≤ m' + 1 ∧
+      numCore fuel order h start stop (some s) none listening
+        = (true, ephemIter fuel order (grid start (-h) m').reverse (some (.range start stop s true)) none none (some s) true) := by
+  have hb : decide (stop < start) = true := by simp; omega
+  obtain ⟨m', _, hmarch, hfar, hord⟩ := march_some true ((none : Option Dates).isSome || (some s).isSome || listening) order (-h) stop m 1
+    start fuel (by simpa using hm) (fun _ => by omega) hf
+  simp only [if_true, decide_eq_false_iff_not, not_lt, gt_iff_lt] at hfar
+  refine ⟨m', hfar, by have := hord (by simp); omega, ?_⟩
+  have e1 : pySign (stop - start) = -1 := by unfold pySign; rw [if_neg]; omega
+  have e2 : pySign s = -1 := by unfold pySign; rw [if_neg]; omega
+  unfold numCore
+  simp only [hb, if_true]
+  cases hmm : march true ((none : Option Dates).isSome || (some s).isSome || listening) order (-h) stop fuel 1 start with
+  | none => rw [hmm] at hmarch; simp at hmarch
+  | some more =>
+    rw [hmm] at hmarch
+    simp only [Option.map_some, Option.some.injEq] at hmarch
+    have hne : s ≠ 0 := by omega
+    have hnle : ¬ start ≤ stop := by omega
+    simp [hmarch, mkRange, hne, e1, e2, Except.map, hnle]
 
 end BeyondVerif.Iter
